@@ -1008,6 +1008,16 @@ func genMsgParse(c *Ctx) {
 		c.decCase("parse", "", fr, 24)
 	}
 
+	// packet-in carrying ARP with hardware / protocol address lengths other than 6 / 4 (EUI-64, InfiniBand, IPv6-sized)
+	for _, hl := range []int{0, 2, 6, 8, 20} {
+		for _, pl := range []int{4, 16} {
+			arp := nb().u16(1, 0x0800).u8(hl, pl).u16(1).seq(0x10, hl).seq(0x30, pl).seq(0x50, hl).seq(0x70, pl).b
+			eth := nb().hex("ffffffffffff0a0b0c0d0e0f0806").raw(arp).b
+			body := nb().u32(0xffffffff).u16(len(eth)).u8(0, 0).q(0).raw(msgMatchBytes(1)).z(2).raw(eth).b
+			c.decCase("parse", "", ofFrame(10, 7, body), 0)
+			c.decCase("parse", "", ofFrame(10, 7, body), 24)
+		}
+	}
 	// packet-in carrying IPv6 with EVERY next-header value, directly and after a hop-by-hop header, with and without
 	// bytes after the last header
 	for nh := 0; nh < 256; nh++ {
